@@ -252,13 +252,13 @@ def table_check(tier, rep_counts, p1s):
             for methods in (("GET", "GET"), ("GET", "POST")):
                 router = Router()
                 hit = []
-                r1 = Route("r1", methods[0], p1, lambda req: (hit.append(1), Response(b"1", 201))[1])
-                r2 = Route("r2", methods[1], p2, lambda req: (hit.append(2), Response(b"2", 202))[1])
+                r1 = Route("r1", methods[0], p1, lambda req: (hit.append((1, dict(req.matches))), Response(b"1", 201))[1])
+                r2 = Route("r2", methods[1], p2, lambda req: (hit.append((2, dict(req.matches))), Response(b"2", 202))[1])
                 r2.options = {}
                 router.registerRoutes([r1, r2])
                 for path in pths:
-                    v1, _ = ref_match(p1, path)
-                    v2, _ = ref_match(p2, path)
+                    v1, b1 = ref_match(p1, path)
+                    v2, b2 = ref_match(p2, path)
                     if "unspecified" in (v1, v2):
                         continue
                     for method in ("GET", "POST"):
@@ -278,6 +278,16 @@ def table_check(tier, rep_counts, p1s):
                             key = ("dispatch", "dispatch status %s, documented %s (%s)" % (resp.status_code, expect, "first-match/method" if expect != 404 else "must be 404"))
                             viols.setdefault(key, [0, {"p1": p1, "p2": p2, "methods": methods, "method": method, "path": path},
                                                    "table [%s %r, %s %r] request %s %r -> %s, expected %s" % (methods[0], p1, methods[1], p2, method, path, resp.status_code, expect)])[0] += 1
+                        elif expect != 404:
+                            # the handler of the chosen route sees ITS parameters bound, under its own names
+                            binds = b1 if expect == 201 else b2
+                            names = [k for k, _ in binds]
+                            want = {k: norm_bind(v) for k, v in binds}
+                            have = {k: norm_bind(v) for k, v in hit[0][1].items()} if len(hit) == 1 else None
+                            if len(set(names)) == len(names) and (have is None or hit[0][0] != expect - 200 or want != have):
+                                key = ("dispatch-bindings", "the chosen route's handler does not see its parameters bound under their own names (two routes in one table)")
+                                viols.setdefault(key, [0, {"p1": p1, "p2": p2, "methods": methods, "method": method, "path": path},
+                                                       "table [%s %r, %s %r] request %s %r -> handler saw %r, expected %r" % (methods[0], p1, methods[1], p2, method, path, hit, want)])[0] += 1
     finally:
         patches.undo()
     rep_counts["dispatch_requests"] = n
@@ -341,7 +351,7 @@ def run(tier, seed):
         "verdict_classes": dict(classes),
         "dispatch_requests": extra.get("dispatch_requests", 0),
         "exhaustive": True,
-        "samples": _samples(pats),
+        "samples": core.safe_samples(lambda: _samples(pats)),
     }
     rep.assumptions = ["reference matcher written from the documented table in Resource/Router docstrings",
                        "rate limiter kept out of the way: one client address per request and a frozen clock"]
